@@ -156,7 +156,7 @@ def mkdir_ok(temp, p):
 def fs_call(kind):
     """A file-system effect: emits the confinement obligation on its path argument."""
     def m(ex, st, args, kwargs, node):
-        p = args[0] if args else None
+        p = args[0] if args else next((kwargs[k] for k in ("name", "path", "file", "p", "s", "filename") if k in kwargs), None)   # os.makedirs(name=...), open(file=...)
         temp = st.ghost.get("temp_dir")
         label = "every-path-argument-is-inside-the-private-temp-dir"     # one id for all sites: call ordinals / primitive names may change
         if temp is None or not isinstance(p, VStr):
